@@ -26,7 +26,9 @@ class Cfg:
 
     def header(self):
         return {"kind": self.kind, "tls": self.tls, "ctmo": -1 if self.ctmo is None else self.ctmo,
-                "tmo": -1 if self.tmo is None else self.tmo, "idle": self.idle, "ignore_exc": self.ignore_exc, "asks": True}
+                "tmo": -1 if self.tmo is None else self.tmo, "idle": self.idle, "ignore_exc": self.ignore_exc, "asks": True,
+                # (several properties read these traces: rejections for one must not use up the budget before another's clause)
+                "maxrej": 12}
 
     def key(self):
         return tuple(sorted(self.__dict__.items()))
